@@ -574,7 +574,11 @@ func (vc *VC) val(v ssa.Value) SVal {
 		if !vc.declared["gf:"+name] {
 			vc.declared["gf:"+name] = true
 			if facts := vc.eng.contracts.GlobalFacts[x.String()]; len(facts) > 0 && vc.eng.initOnlyGlobal(x) {
-				env := &Env{vc: vc, vars: map[string]SVal{x.Name(): p}, mem: vc.mem0}
+				bound := p
+				if _, isSt := el.Underlying().(*types.Struct); !isSt {
+					bound = vc.loadSpec(p, el, vc.mem0) // a map / scalar variable: its value
+				}
+				env := &Env{vc: vc, vars: map[string]SVal{x.Name(): bound}, mem: vc.mem0}
 				for _, gf := range facts {
 					vc.fact("true", vc.evalBool(gf.E, env))
 					vc.note("assumed: package-level variable %s satisfies %s (assigned only by the package initialiser)", x.Name(), gf.Text)
